@@ -297,7 +297,7 @@ func cmdCliCheck(args []string) {
 				cnt++
 			}
 		}
-		os.RemoveAll(dir)
+		// the files stay until the run is over: a candidate is confirmed by running the same command line again
 	}
 	lw.close()
 	printJSON(J{"cases": cnt, "nontrivial": nontriv, "outcomes": outcomes, "samples": samples})
